@@ -442,6 +442,7 @@ func cmdCheck(args []string) {
 		fmt.Printf("NOTE unreachable return (postconditions there hold vacuously): %s\n", u)
 	}
 	var undecided []string
+	seenUndecided := map[string]bool{}
 	for _, fg := range fgs {
 		for _, u := range fg.undecided {
 			rel := *prop == ""
@@ -452,8 +453,11 @@ func cmdCheck(args []string) {
 			}
 			if rel {
 				line := fmt.Sprintf("UNDECIDED property=%s function=%s clause=%s (%s): %s", *prop, shortKey(u.Func), u.Pos, u.Text, u.Reason)
-				undecided = append(undecided, line)
-				fmt.Println(line)
+				if !seenUndecided[line] {
+					seenUndecided[line] = true
+					undecided = append(undecided, line)
+					fmt.Println(line)
+				}
 			}
 		}
 	}
